@@ -60,6 +60,7 @@ def rand_config(r, small=False):
     c["sort"] = r.getrandbits(32) if r.random() < 0.3 else None
     # pack file lines children first: directories are created implicitly and their own line arrives later
     c["pack_order"] = "children-first" if r.random() < 0.3 else None
+    c["optseed"] = r.getrandbits(32) if r.random() < 0.5 else None
     return c
 
 
@@ -75,19 +76,17 @@ def sort_file_lines(seed):
 
 
 def config_args(c):
-    a = ["-c", c["comp"], "-b", str(c["bs"]), "-q"]
-    if c.get("extra"):
-        a += ["-X", ",".join(c["extra"])]
+    groups = [["-c", c["comp"]] + (["-X", ",".join(c["extra"])] if c.get("extra") else []), ["-b", str(c["bs"])], ["-q"]]
     if c.get("devbs"):
-        a += ["-B", str(c["devbs"])]
+        groups.append(["-B", str(c["devbs"])])
     if c.get("T"):
-        a.append("-T")
+        groups.append(["-T"])
     if c.get("e"):
-        a.append("-e")
+        groups.append(["-e"])
     if c.get("j"):
-        a += ["-j", str(c["j"])]
+        groups.append(["-j", str(c["j"])])
     if c.get("Q"):
-        a += ["-Q", str(c["Q"])]
+        groups.append(["-Q", str(c["Q"])])
     if c.get("defaults"):
         d = c["defaults"]
         parts = []
@@ -96,15 +95,19 @@ def config_args(c):
                 parts.append("%s=%d" % (k, d[k]))
         if "mode" in d:
             parts.append("mode=0%o" % d["mode"])
-        a += ["-d", ",".join(parts)]
+        groups.append(["-d", ",".join(parts)])
     if c.get("all_root"):
-        a.append("--all-root")
+        groups.append(["--all-root"])
     else:
         if c.get("set_uid") is not None:
-            a += ["-u", str(c["set_uid"])]
+            groups.append(["-u", str(c["set_uid"])])
         if c.get("set_gid") is not None:
-            a += ["-g", str(c["set_gid"])]
-    return a
+            groups.append(["-g", str(c["set_gid"])])
+    if c.get("optseed") is not None:
+        # the effect of an option must not depend on its position on the command line
+        import random
+        random.Random(c["optseed"]).shuffle(groups)
+    return [x for g in groups for x in g]
 
 
 def expected_for(tree, c):
